@@ -32,6 +32,16 @@ def run(tier, rep):
     del r.cases[:]
     recs, _ = vlib.run_vh(["c06-replay", p], timeout=6000)
     handle(rep, recs)
+    # legacy fixed-length, by_header_footer envelopes (FixedLegacy.tla): declaration order, repetition, not_target, end of reading
+    r = vlib.tlc("MC_FixedLegacy", "MC_FixedLegacy.cfg", consts={"MaxLines": "4" if thorough else "3", "EmitCases": "TRUE", "EmitMod": "40" if thorough else "6"}, timeout=3000)
+    rep.add_tlc("MC_FixedLegacy", r)
+    if not vlib.tlc_ok(r, "MC_FixedLegacy"):
+        raise vlib.Inconclusive("FixedLegacy.tla violates %s: specification problem" % r.violated)
+    p = os.path.join(vlib.scratch(), "c06.legacy.ndjson")
+    vlib.write_ndjson(p, r.cases)
+    del r.cases[:]
+    recs, _ = vlib.run_vh(["c06-legacy", p], timeout=3000)
+    handle(rep, recs)
     recs, _ = vlib.run_vh(["c06-boundary"], timeout=3000)
     handle(rep, recs)
     tr = os.path.join(vlib.scratch(), "c06.trace.ndjson")
@@ -47,7 +57,8 @@ def run(tier, rep):
                        "header only, header+footer) x 5 column sets (plain, line_index, line_pattern, beyond the row, duplicates); TLC checks the csv2 buffer "
                        "model = reference; each case replayed on csv2, fixedlength2, legacy fixed-length and legacy csv with seeded delimiter "
                        "(, | tab ; and 2-/3-byte runes), payload family (plain / quotes+delimiter+newline+blanks / >4 KiB / >64 KiB), CRLF and final terminator. "
-                       "Boundary sweep: 3-row records whose rows are 4090..4100, 8190..8193 and 65534..65537 bytes long, LF and CRLF, rows-based and "
+                       "Legacy fixed-length by_header_footer: tables of <=3/4 lines x 1-2 envelope declarations (header/footer markers, footer on the header line, not_target) x 3 column sets, "
+                       "expectations from FixedLegacy.tla. Boundary sweep: 3-row records whose rows are 4090..4100, 8190..8193 and 65534..65537 bytes long, LF and CRLF, rows-based and "
                        "header/footer, fixedlength2 and legacy fixed-length, head and tail columns of every row against the generated line. "
                        "B2: random tables of 20-80 lines with per-table payload dictionaries, re-evaluated by TLC. non-trivial: multi-line records or rich payloads")
     rep.cov["exhaustive"] = True
